@@ -22,7 +22,7 @@ class FakeWorld:
         self.flows.append((src, dest, frozenset((a, a) if isinstance(a, str) else tuple(a) for a in attrs), tuple(sorted(kw.items()))))
 
 
-ATTR_SPECS = [('a',), ('a', 'b'), (('val', 'a'), ('val', 'b')), ('aux', ('aux', 'b')), (('x', 'y'),), ('a', ('b', 'c'), ('b', 'd'))]
+ATTR_SPECS = [(), ('a',), ('a', 'b'), (('val', 'a'), ('val', 'b')), ('aux', ('aux', 'b')), (('x', 'y'),), ('a', ('b', 'c'), ('b', 'd'))]
 
 
 def attr_specs_check(violations):
